@@ -10,6 +10,7 @@ set_option linter.unusedVariables false
 set_option linter.unusedSimpArgs false
 namespace EPV.Cal
 open EPV.Lex (Str)
+open EPV.Timeline (monthLen)
 
 theorem pad_all_digits (w n : Nat) : ∀ c ∈ pad w n, c.isDigit = true := by
   intro c hc
@@ -427,9 +428,15 @@ theorem time_lex_roundtrip (t : DT) (ht : IsTime t) : timeOfLex (fmtTime t) = .o
   simp only []
   rw [tzf.1]
   simp only []
-  rw [hf]
   have hu : ((t.us.toNat : Nat) : Int) = t.us := Int.toNat_of_nonneg h0
   have h1' : t.us < 86400000000 := by simpa [US] using h1
+  have hnb : endOfDayBad (t.us.toNat / 3600000000) fd = false := by
+    unfold endOfDayBad
+    have : (t.us.toNat / 3600000000 == 24) = false := by simp only [beq_eq_false_iff_ne, ne_eq]; omega
+    rw [this]; rfl
+  rw [hnb]
+  simp only [Bool.false_eq_true, ↓reduceIte]
+  rw [hf]
   unfold timeMk
   have h24 : ((((t.us.toNat / 3600000000 : Nat) : Int)) == 24) = false := by
     simp only [beq_eq_false_iff_ne, ne_eq]; omega
@@ -438,6 +445,123 @@ theorem time_lex_roundtrip (t : DT) (ht : IsTime t) : timeOfLex (fmtTime t) = .o
   obtain ⟨y, m, d, u, z⟩ := t
   simp only at hy hm hd hu h0 h1' ⊢
   subst hy hm hd
+  have : timeUs ((u.toNat / 3600000000 : Nat) : Int) ((u.toNat / 60000000 % 60 : Nat) : Int) ((u.toNat / 1000000 % 60 : Nat) : Int)
+      ((u.toNat % 1000000 : Nat) : Int) = u := by unfold timeUs; omega
+  rw [this]
+
+theorem fmtYear_nonwhite (v11 : Bool) (y : Int) : ∀ c ∈ fmtYear v11 y, EPV.Lex.isPyWhite c = false := by
+  intro c hc
+  unfold fmtYear at hc
+  simp only [List.mem_append] at hc
+  rcases hc with h | h
+  · split at h
+    · simp at h; subst h; decide
+    · cases h
+  · exact pad_nonwhite _ _ c h
+
+theorem fmtDateBody_nonwhite (v11 : Bool) (v : DT) : ∀ c ∈ fmtDateBody v11 v, EPV.Lex.isPyWhite c = false := by
+  intro c hc
+  unfold fmtDateBody at hc
+  simp only [List.mem_append, List.mem_cons] at hc
+  rcases hc with (h | rfl | h) | rfl | h
+  · exact fmtYear_nonwhite _ _ c h
+  · decide
+  · exact pad_nonwhite _ _ c h
+  · decide
+  · exact pad_nonwhite _ _ c h
+
+theorem fmtDateBody_ne_nil (v11 : Bool) (v : DT) : fmtDateBody v11 v ≠ [] := by
+  unfold fmtDateBody; intro h; simp at h
+
+/-- the year group of a string form gives the stored year back -/
+theorem yearOfLex_fmt (v11 : Bool) (y : Int) (hy : y ≠ 0) :
+    yearOfLex v11 (decide (isoYear v11 y < 0)) (pad 4 (isoYear v11 y).natAbs) = .ok y := by
+  unfold yearOfLex
+  rw [if_neg (pad4_no_leading_zero _), digitsVal_pad]
+  have e : (if decide (isoYear v11 y < 0) = true then -((isoYear v11 y).natAbs : Int) else ((isoYear v11 y).natAbs : Int)) = isoYear v11 y := by
+    by_cases h : isoYear v11 y < 0 <;> simp [h] <;> omega
+  rw [e]; exact lexYear_isoYear v11 y hy
+
+theorem date_fields_ok (v : DT) (hv : v.Valid) :
+    v.month.toNat < 100 ∧ v.day.toNat < 100 ∧ ((v.month.toNat : Nat) : Int) = v.month ∧ ((v.day.toNat : Nat) : Int) = v.day ∧
+    (1 ≤ v.month ∧ v.month ≤ 12) ∧ (1 ≤ v.day ∧ v.day ≤ monthDays (proxyLeap v.year) v.month) := by
+  obtain ⟨hy, ⟨hm1, hm12, hd1, hd2, hu0, hu1⟩, htz⟩ := hv
+  simp only [absV] at hm1 hm12 hd1 hd2
+  have := Timeline.monthLen_pos (astro v.year) v.month
+  refine ⟨by omega, by omega, by omega, by omega, ⟨hm1, hm12⟩, hd1, ?_⟩
+  rw [proxyLeap_eq v.year hy, monthDays_eq _ _ hm1 hm12]; exact hd2
+
+/-- **`Date.fromstring(str(d)) = d`** in both XSD versions -/
+theorem date_lex_roundtrip (v11 : Bool) (v : DT) (hv : v.Valid) (hus : v.us = 0) (hyb : v.year.natAbs ≤ 2 ^ 31) :
+    dateOfLex v11 (fmtDate v11 v) = .ok v := by
+  have tzf := fmtTz_facts v.tz hv.2.2
+  obtain ⟨hm, hd, em, ed, hmb, hdb⟩ := date_fields_ok v hv
+  have hstrip : pyStripAll (fmtDate v11 v) = fmtDate v11 v := by
+    unfold pyStripAll fmtDate
+    apply pyStrip_id_of_all
+    · intro h; simp at h; exact fmtDateBody_ne_nil _ _ h.1
+    · intro c hc
+      rcases List.mem_append.mp hc with h | h
+      · exact fmtDateBody_nonwhite _ _ c h
+      · exact fmtTz_nonwhite v.tz hv.2.2 c h
+  unfold dateOfLex
+  rw [hstrip]
+  have hshape : fmtDate v11 v = fmtYear v11 v.year ++ '-' :: pad 2 v.month.toNat ++ '-' :: pad 2 v.day.toNat ++ fmtTz v.tz := by
+    unfold fmtDate fmtDateBody; simp only [List.append_assoc, List.cons_append]
+  rw [hshape, parseDateBody_fmt v11 v.year _ _ hm hd]
+  simp only []
+  rw [tzf.1]
+  simp only []
+  rw [yearOfLex_fmt v11 v.year hv.1]
+  simp only [bind, Except.bind]
+  rw [em, ed, mk_ok v.year v.month v.day 0 0 0 0 v.tz hv.1 hyb hmb hdb (by omega) (by omega) (by omega) (by omega)]
+  obtain ⟨y, m, d, u, z⟩ := v
+  simp only at hus; subst hus; rfl
+
+/-- **`DateTime.fromstring(str(d)) = d`** in both XSD versions: BCE years, years of more than four digits,
+fractions of a second, every timezone -/
+theorem dateTime_lex_roundtrip (v11 : Bool) (v : DT) (hv : v.Valid) (hyb : v.year.natAbs ≤ 2 ^ 31) :
+    dateTimeOfLex v11 (fmtDateTime v11 v) = .ok v := by
+  have tzf := fmtTz_facts v.tz hv.2.2
+  obtain ⟨hm, hd, em, ed, hmb, hdb⟩ := date_fields_ok v hv
+  have h0 : 0 ≤ v.us := hv.2.1.2.2.2.2.1
+  have h1 : v.us < 86400000000 := by have := hv.2.1.2.2.2.2.2; simpa [absV, Timeline.US] using this
+  have hstrip : pyStripAll (fmtDateTime v11 v) = fmtDateTime v11 v := by
+    unfold pyStripAll fmtDateTime
+    apply pyStrip_id_of_all
+    · intro h; simp at h
+    · intro c hc
+      simp only [List.mem_append, List.mem_cons] at hc
+      rcases hc with (h | rfl | h) | h
+      · exact fmtDateBody_nonwhite _ _ c h
+      · decide
+      · exact fmtTimeOfDay_nonwhite _ c h
+      · exact fmtTz_nonwhite v.tz hv.2.2 c h
+  unfold dateTimeOfLex
+  rw [hstrip]
+  have hshape : fmtDateTime v11 v = fmtYear v11 v.year ++ '-' :: pad 2 v.month.toNat ++ '-' :: pad 2 v.day.toNat ++
+      ('T' :: (fmtTimeOfDay v.us ++ fmtTz v.tz)) := by
+    unfold fmtDateTime fmtDateBody; simp only [List.append_assoc, List.cons_append]
+  rw [hshape, parseDateBody_fmt v11 v.year _ _ hm hd]
+  simp only []
+  obtain ⟨fd, hp, hf⟩ := parseTimeBody_fmt v.us h0 h1 (fmtTz v.tz) tzf.2.1
+  rw [hp]
+  simp only []
+  rw [tzf.1]
+  simp only []
+  have hu : ((v.us.toNat : Nat) : Int) = v.us := Int.toNat_of_nonneg h0
+  have hnb : endOfDayBad (v.us.toNat / 3600000000) fd = false := by
+    unfold endOfDayBad
+    have : (v.us.toNat / 3600000000 == 24) = false := by simp only [beq_eq_false_iff_ne, ne_eq]; omega
+    rw [this]; rfl
+  rw [hnb]
+  simp only [Bool.false_eq_true, ↓reduceIte]
+  rw [yearOfLex_fmt v11 v.year hv.1]
+  simp only [bind, Except.bind]
+  rw [em, ed, hf]
+  rw [mk_ok v.year v.month v.day _ _ _ _ v.tz hv.1 hyb hmb hdb (by omega) (by omega) (by omega) (by omega)]
+  obtain ⟨y, m, d, u, z⟩ := v
+  simp only at hu h0 h1 ⊢
   have : timeUs ((u.toNat / 3600000000 : Nat) : Int) ((u.toNat / 60000000 % 60 : Nat) : Int) ((u.toNat / 1000000 % 60 : Nat) : Int)
       ((u.toNat % 1000000 : Nat) : Int) = u := by unfold timeUs; omega
   rw [this]
